@@ -6,11 +6,12 @@ from ..rules import shape, ownership, lifetime
 def run(tier, runner):
     pts = [p for p in matrix.vec_points(tier) if p.flavour in ('vector', 'small')]
     progs = matrix.programs(runner, pts)
-    r_cs = shape.cap_stable(progs)
-    r_gg = shape.grow_guard(progs)
+    real = matrix.real_programs(runner, tier)
+    r_cs = shape.cap_stable(progs + real)
+    r_gg = shape.grow_guard(progs + real)
     r_geo, facts = shape.geo(progs)
     r_st = ownership.steal(progs)
-    r_cd = lifetime.check_dom(progs)
+    r_cd = lifetime.check_dom(progs + real)
     r_st.require(6, 'hand-over functions')
     r_cd.require(20, 'constructs into container storage')
     r_cs.require(20, 'public mutators of the dynamic vectors')
